@@ -722,7 +722,12 @@ func (c *cx) emit(name, typ, val string, js any, at cnode) {
 	if _, ok := at.n.(ast.Expr); ok {
 		src = "  `" + render(at.n) + "`"
 	}
-	c.defs = append(c.defs, cdef{name, typ, val, leanDocSafe(fmt.Sprintf("%s  %s%s", c.rel(at.n.Pos()), at.where, src)), js})
+	// The Lean comment names file, function, selector and expression but not the line: a Gen module must not change (and
+	// make lake rebuild the property's theorems) because unrelated lines were added above the function.  The line is in
+	// the JSON twin.
+	pos := c.rel(at.n.Pos())
+	file := pos[:strings.LastIndex(pos, ":")]
+	c.defs = append(c.defs, cdef{name, typ, val, leanDocSafe(fmt.Sprintf("%s  %s%s", file, at.where, src)), map[string]any{"value": js, "at": pos}})
 }
 
 func natLit(v *big.Int) string {
